@@ -829,3 +829,60 @@ pub fn c18_labels(v: &View, l: &mut Vec<&'static str>) {
         l.push("actor_context_ask");
     }
 }
+
+// ------------------------------------------------------------------------------------------
+// C19 (runtime half): on_tell_result exactly once after a tell, never after an ask
+// ------------------------------------------------------------------------------------------
+pub fn c19_runtime(v: &View) -> Vec<Violation> {
+    let mut out = vec![];
+    for o in v.sends() {
+        let (how, mid, _) = o.send().unwrap();
+        let Some(h) = v.handlers.get(&mid).map(|h| &h[0]) else { continue };
+        // only handlers that returned a value have a result to report
+        let Some(outc) = h.out else { continue };
+        if outc == Out::Panic {
+            continue;
+        }
+        let n = v.tell_results.get(&mid).copied().unwrap_or(0);
+        let want = if how.is_tell() { 1 } else { 0 };
+        if n != want {
+            out.push(viol(
+                "C19",
+                "on-tell-result-count",
+                format!("{how:?} of message {mid}: on_tell_result was invoked {n} time(s) after the handler returned, expected {want}"),
+            ));
+        }
+    }
+    // the value given to on_tell_result is the handler's return value
+    for e in v.evs {
+        if let K::TellResult { mid, err, .. } = &e.k {
+            if let Some(h) = v.handlers.get(mid).map(|h| &h[0]) {
+                if h.out.map(|o| (o == Out::Err) != *err).unwrap_or(false) {
+                    out.push(viol("C19", "on-tell-result-value", format!("message {mid}: on_tell_result saw err={err} but the handler returned {:?}", h.out)));
+                }
+            }
+        }
+    }
+    out
+}
+
+pub fn c19_labels(v: &View, l: &mut Vec<&'static str>) {
+    let mut tells = 0;
+    let mut asks = 0;
+    for o in v.sends() {
+        let (how, mid, _) = o.send().unwrap();
+        if v.handled_count(mid) > 0 {
+            if how.is_tell() {
+                tells += 1;
+            } else {
+                asks += 1;
+            }
+        }
+    }
+    if tells >= 1 && asks >= 1 {
+        l.push("handled_tell_and_ask");
+    }
+    if v.evs.iter().any(|e| matches!(&e.k, K::TellResult { err: true, .. })) {
+        l.push("tell_result_err_value");
+    }
+}
